@@ -247,12 +247,18 @@ COMBINATORS = {
     "std::result::Result::unwrap_or_else": "res_unwrap_or_else",
     "std::result::Result::is_ok_and": "res_is_ok_and",
     "std::option::Option::is_some_and": "opt_is_some_and",
+    "std::option::Option::unwrap_or": "opt_unwrap_or",
+    "std::result::Result::unwrap_or": "res_unwrap_or",
+    "std::option::Option::copied": "opt_copied",
+    "std::option::Option::cloned": "opt_copied",
     "std::iter::Iterator::for_each": "for_each",
     "std::iter::Iterator::all": "iter_all",
     "std::iter::Iterator::any": "iter_any",
     "std::iter::Iterator::fold": "iter_fold",
     "std::iter::Iterator::sum": "iter_sum",
     "std::iter::Iterator::try_for_each": "iter_try_for_each",
+    "core::slice::::fill": "slice_fill",
+    "core::slice::fill": "slice_fill",
 }
 
 
@@ -274,6 +280,8 @@ def combinator_of(t):
     if n in COMBINATORS:
         return COMBINATORS[n]
     # `<std::slice::Iter<'a, T> as std::iter::Iterator>::for_each` and friends
+    if re.search(r"(^|::)ops::(function::)?FnOnce::call_once$", n) or re.search(r"^<.* as (std|core)::ops::(function::)?FnOnce<.*>>::call_once$", c):
+        return "fn_call_once"
     m = re.match(r"^<.* as std::iter::Iterator>::(for_each|all|any|fold|sum|try_for_each)$", c)
     if m:
         return {"for_each": "for_each", "all": "iter_all", "any": "iter_any", "fold": "iter_fold", "sum": "iter_sum", "try_for_each": "iter_try_for_each"}[m.group(1)]
@@ -448,11 +456,25 @@ def inline_awaited(raw, coroutine_lookup, max_rounds=6):
     return raw, n_done
 
 
-def _closure_arg(S, op, closure_lookup):
-    """(closure raw body, captures) for a `move _n` operand whose single def is a closure literal."""
+def _closure_arg(S, op, closure_lookup, follow=False):
+    """(closure raw body, captures) for a `move _n` operand whose single def is a closure literal (with `follow`:
+    or a plain move of such a local - the parameter slot of an inlined helper)."""
     if op.get("k") != "move" or op["pl"]["p"]:
         return None
-    agg = find_closure_agg(S.raw, op["pl"]["l"])
+    l = op["pl"]["l"]
+    agg = find_closure_agg(S.raw, l)
+    for _ in range(4):
+        if agg is not None or not follow:
+            break
+        d = _single_def(S, l)
+        if d is None or d[1] is None:
+            break
+        rv = d[2].get("rv") or {}
+        if rv.get("k") == "use" and rv["op"].get("k") == "move" and not rv["op"]["pl"]["p"]:
+            l = rv["op"]["pl"]["l"]
+            agg = find_closure_agg(S.raw, l)
+        else:
+            break
     if agg is None:
         return None
     cb = closure_lookup(agg["def"])
@@ -609,6 +631,54 @@ def _desugar_one(S, bi, tpl, closure_lookup):
         bb["term"] = term
         return True
 
+    if tpl == "fn_call_once":
+        # `f(a, b)` where f is a closure literal in sight (a closure handed to a helper that was inlined): its body
+        if len(args) != 2 or args[1].get("k") not in ("move", "copy") or args[1]["pl"]["p"]:
+            return False
+        c = _closure_arg(S, args[0], closure_lookup, follow=True)
+        if c is None:
+            return False
+        d = _single_def(S, args[1]["pl"]["l"])
+        if d is None or d[1] is None:
+            return False
+        rv = d[2].get("rv") or {}
+        if rv.get("k") != "agg" or rv.get("ak") != "tuple":
+            return False
+        cb, caps = c
+        if len(cb["locals"]) < 2 + len(rv["fields"]):
+            return False
+        entry, loff, rets = _splice_closure(S, cb, caps, [copy.deepcopy(f_) for f_ in rv["fields"]], sp)
+        ret_to(rets, loff, lambda op: use(op))
+        bb["term"] = goto(entry, sp)
+        return True
+
+    if tpl in ("opt_unwrap_or", "res_unwrap_or"):
+        # x.unwrap_or(d)  ==  match x { Some(v) => v, None => d }   (d is a value, already evaluated)
+        if len(args) != 2:
+            return False
+        adt = OPTION if tpl.startswith("opt") else RESULT
+        hit, hit_idx, miss_idx = ("Some", 1, 0) if adt == OPTION else ("Ok", 0, 1)
+        e_hit = S.new_block([assign(copy.deepcopy(dest), use(mv(_payload(recv, adt, hit))), sp)], goto(cont, sp))
+        e_miss = S.new_block([assign(copy.deepcopy(dest), use(copy.deepcopy(args[1])), sp)], goto(cont, sp))
+        stmts, term = switch_on(recv, rty, [(hit_idx, e_hit), (miss_idx, e_miss)], unreachable())
+        bb["stmts"] += stmts
+        bb["term"] = term
+        return True
+
+    if tpl == "opt_copied":
+        # Option<&T>::copied / cloned for plain integers  ==  match x { Some(r) => Some(*r), None => None }
+        m_ = re.match(r"^std::option::Option<&(?:'\w+ )?(?:mut )?(\w+)>$", rty)
+        if len(args) != 1 or not m_ or m_.group(1) not in ("usize", "u64", "u32", "i64", "i32", "u128", "i128", "isize", "u16", "u8", "i16", "i8", "bool"):
+            return False
+        pay = _payload(recv, OPTION, "Some")
+        pay = {"l": pay["l"], "p": list(pay["p"]) + ["*"]}
+        e_hit = S.new_block([assign(copy.deepcopy(dest), _variant_agg(OPTION, "Some", cp(pay)), sp)], goto(cont, sp))
+        e_miss = S.new_block([assign(copy.deepcopy(dest), {"k": "agg", "ak": "adt", "adt": OPTION, "variant": "None", "fnames": [], "fields": []}, sp)], goto(cont, sp))
+        stmts, term = switch_on(recv, rty, [(1, e_hit), (0, e_miss)], unreachable())
+        bb["stmts"] += stmts
+        bb["term"] = term
+        return True
+
     if tpl == "iter_try_for_each":
         # it.try_for_each(|x| -> Result<(), E> { .. })  ==  for x in it { body(x)?; }  Ok(())
         c = _closure_arg(S, args[1], closure_lookup) if len(args) == 2 else None
@@ -637,6 +707,34 @@ def _desugar_one(S, bi, tpl, closure_lookup):
         S.blocks[sw]["stmts"] += stmts
         S.blocks[sw]["term"] = term
         bb["term"] = goto(head, sp)
+        return True
+
+    if tpl == "slice_fill":
+        # s.fill(v)  ==  for x in s.iter_mut() { *x = v }     (Copy element types: integers)
+        if len(args) != 2 or not rty.startswith("&mut [") or not rty.endswith("]"):
+            return False
+        ety = rty[len("&mut ["):-1]
+        if ety not in ("usize", "u64", "u32", "i64", "i32", "u128", "i128", "isize", "u16", "u8", "i16", "i8", "bool"):
+            return False
+        ity = "std::slice::IterMut<'_, %s>" % ety
+        it = S.new_local(ity, user=False)
+        nxt = S.new_local("std::option::Option<&mut %s>" % ety)
+        ref = S.new_local("&mut " + ity)
+        elem = S.new_local("&mut " + ety, user=True)
+        S.debug.append({"name": "slot", "pl": P(elem)})
+        head = S.new_block()
+        sw = S.new_block()
+        body = S.new_block([assign(P(elem), use(mv(_payload(P(nxt), OPTION, "Some"))), sp), assign(P(elem, "*"), use(copy.deepcopy(args[1])), sp)], goto(head, sp))
+        done = S.new_block([assign(copy.deepcopy(dest), use({"k": "const", "ty": "()", "s": "()"}), sp)], goto(cont, sp))
+        S.blocks[head]["stmts"].append(assign(P(ref), {"k": "ref", "bk": "mut", "pl": P(it)}, sp))
+        S.blocks[head]["term"] = {"k": "call", "callee": "std::iter::Iterator::next", "item": "next", "gargs": [ity], "trait": "std::iter::Iterator",
+                                  "resolved": "std::iter::Iterator::next", "rkind": "item", "args": [mv(P(ref))], "argtys": ["&mut " + ity],
+                                  "dest": P(nxt), "destty": "std::option::Option<&mut %s>" % ety, "t": sw, "uw": None, "fsp": sp, "sp": sp, "desugared": tpl}
+        stmts, term = switch_on(P(nxt), "std::option::Option<&mut %s>" % ety, [(1, body), (0, done)], unreachable())
+        S.blocks[sw]["stmts"] += stmts
+        S.blocks[sw]["term"] = term
+        bb["term"] = {"k": "call", "callee": "core::slice::<impl [T]>::iter_mut", "item": "iter_mut", "gargs": [ety], "resolved": "core::slice::<impl [T]>::iter_mut", "rkind": "item",
+                      "args": [copy.deepcopy(args[0])], "argtys": [rty], "dest": P(it), "destty": ity, "t": head, "uw": None, "fsp": sp, "sp": sp, "desugared": tpl}
         return True
 
     if tpl == "iter_sum":
